@@ -105,7 +105,7 @@ P = {'id': 'C20',
                'Not modelled: the AVX-512 paths of FastStr (feature-gated), the sorts of SortableStrVec (radix, by length, custom), the rank/select layout '
                'under ZoSortedStrVec (select1 by specification; C04). The hash paths are modelled as functions of the byte string; independence of the buffer '
                'address is observed by the oracle (24 alignments x lengths 0..130 x every constructor) and by the hash value itself being compared with the '
-               'model. Oracle breadth (harness/src/c20_wide.rs, oracle only, no Coq case): pre-parsed comparator entry points, numerals up to 2^20 digits, '
+               'model. SortableStrVec::radix_sort is additionally run in child processes on strings with long common runs (recursion depth; a stack overflow there was found and repaired, f706236). Oracle breadth (harness/src/c20_wide.rs, oracle only, no Coq case): pre-parsed comparator entry points, numerals up to 2^20 digits, '
                'FastStr up to 2^20+1 bytes, presets / buffer sizes / maximum line length of LineProcessor, operation histories on one reused LineProcessor, '
                'LineSplitter, JoinBuilder, SortableStrVec (with its environment options), Utf8ToUtf32Iterator and StreamingLexIterator, big sorted lists and '
                'ZoSortedStrVec layouts above 2^16 / 2^20 bits.',
